@@ -9,6 +9,12 @@ from .common import *
 
 def check(ctx):
     p = ctx.prog
+    # no state survives from one call to the next in a function-local static
+    no_static_state(ctx, 'state.no_static_locals')
+    # all arithmetic behind this property happens in the numeric type T of the instantiation
+    single_precision(ctx, 'prec.single_type', ['hep::mc_point::', 'hep::vegas_point::', 'hep::multi_channel_point::', 'hep::multi_channel_point2::', 'hep::plain_iteration', 'hep::vegas_iteration', 'hep::multi_channel_iteration', 'hep::vegas_icdf'], 1)
+    # no constructor of the classes this property computes with leaves a member indeterminate
+    members_initialised(ctx, 'init.members', ['hep::mc_point', 'hep::vegas_point', 'hep::multi_channel_point', 'hep::multi_channel_point2'], 3)
     ctx.assume('measure preservation argument: a piecewise-linear monotone map onto the bins with '
                'weight = its derivative preserves the integral; E[f J / sum_j a_j p_j] = int f for '
                'normalised channel densities (spec/formulas.py)')
@@ -205,6 +211,8 @@ def check(ctx):
     share(ctx, 'C17', 'R7/C17.', ['R4.unit_interval', 'R1.same_map_object', 'R1.same_objects'])
     # MPI: the calls of an iteration are split over the ranks of the communicator that is reduced over
     share(ctx, 'C04', 'R6/C04.', ['R8.'])
+    # the estimate averages over ALL calls: the counts handed to the result are the roles the result expects
+    share(ctx, 'C02', 'R8/C02.', ['R5.'])
 
     # ---------------------------------------------------------------- R4 PLAIN weight is one
     for f3 in instances(p, 'hep::plain_iteration'):
